@@ -175,7 +175,13 @@ func vpH_c09_cmd_matrix() {
 	case 7:
 		x.Matrix = &Matrix{Adjustments: MatrixAdjustments{{With: MatrixAdjustmentWith{"os": v1}}}} // only adjustments
 	case 8:
-		x.Matrix = &Matrix{Setup: MatrixSetup{}} // `matrix: {setup: {}}`
+		// `matrix: {setup: {}}` parses to a nil setup (like `setup: null`), so an
+		// empty non-nil setup map is not a parse result; the document form is
+		// exercised instead
+		doc := vpMapOf("command", "c", "matrix", vpMapOf("setup", vpMapOf(), "adjustments", []any{vpMapOf("with", vpMapOf("os", v1))}))
+		parsed := new(CommandStep)
+		vpAssert(ordered.Unmarshal(doc, parsed) == nil && parsed.Matrix != nil && parsed.Matrix.Setup == nil, "an empty setup mapping parses like a null setup")
+		x.Matrix = parsed.Matrix
 	case 9:
 		x.Matrix = &Matrix{Setup: MatrixSetup{"": {}}} // anonymous dimension with an empty list
 	}
